@@ -152,3 +152,45 @@ Print Assumptions C15_oversize_key_survives_reset.
 Print Assumptions C15_nonvacuous.
 Print Assumptions C15_encode_total_iff.
 Print Assumptions C15_reads_panic_iff.
+
+(* ================================================================================================ *)
+(* C15 <-> C17: the Merkle store end to end                                                          *)
+(* ================================================================================================ *)
+Require Import RV.Model.C17_Jmt RV.Model.C17_Smt RV.Proof.C17_Update RV.Proof.C17_Compose RV.Props.C17 RV.Proof.C15_C17_Link.
+
+(* For every commit history within the size limits whose keys are bytes and come from prefix-free
+   universes of non-empty keys (ok_commit on the translated history: the precondition of C17; the
+   Merkle store panics without it — known finding merkle-prefix-keys), with
+     s    the substate column family after the history (any ordered map satisfying kv_spec),
+     db   the in-memory store after the same history,
+     d17  the database of C17's specification after the translated history (nibble keys):
+   (1,2) the column family returns the reads and listings of the in-memory store;
+   (3)   put_at_next_version never panics over the history and the root recorded by the last commit is
+         db_root of d17 (C17_root_is_commitment, C17_last_root);
+   (4)   d17 is, pointwise, the content of the in-memory store.
+   So the root the Merkle store records commits to exactly the substates its column family serves. *)
+Theorem C15_merkle_store_end_to_end :
+  forall (H : list N -> list N) fuel, (0 < fuel)%nat -> (forall x, H x <> ZERO_HASH) ->
+  forall US UP UE, pfree US -> ~ US [] -> pfree UP -> ~ UP [] -> pfree UE -> ~ UE [] ->
+  forall (S : Type) (ops : kv_ops S) R, kv_spec ops R ->
+  forall cs, Forall updates_ok cs -> Forall commit_bytes_ok cs ->
+    Forall (ok_commit fuel US UP UE) (map tr_commit cs) -> cs <> [] ->
+  let s := rocks_run ops cs in
+  let db := C14_Store.apply_commits mem_new cs in
+  let d17 := C17_Smt.apply_commits [] (map tr_commit cs) in
+  (forall pk sk, pk_ok pk -> rocks_get ops s pk sk = mem_get db pk sk) /\
+  (forall pk from, pk_ok pk -> rocks_list ops s pk from = Some (mem_list db pk from)) /\
+  (exists roots stf, run_db H fuel None (map tr_commit cs) = Ok (roots, stf) /\
+                     last roots ZERO_HASH = db_root H fuel d17) /\
+  (forall nk pn sk, bytes_ok nk = true -> pn < 256 -> bytes_ok sk = true ->
+     get17 d17 nk pn sk = mem_get db (nk, pn) sk).
+Proof.
+  intros H fuel Hf HZ US UP UE PS S0 PP P0 PE E0 S ops R SP cs U B OK NE. cbv zeta.
+  destruct (stores_refinement S ops R SP cs U) as [G [L _]].
+  split; [exact G|]. split; [exact L|]. split.
+  - destruct (C17_root_is_commitment H fuel Hf HZ US UP UE PS S0 PP P0 PE E0 (map tr_commit cs) OK) as [stf [E _]].
+    exists (spec_roots H fuel [] (map tr_commit cs)), stf. split; [exact E|].
+    apply C17_last_root. destruct cs; [contradiction|discriminate].
+  - intros nk pn sk Onk Opn Osk. apply content_link; assumption.
+Qed.
+Print Assumptions C15_merkle_store_end_to_end.
